@@ -195,4 +195,33 @@ def refreshWait (next now refresh : Nat) (minRefresh : Option Nat) : Nat :=
     | some m => m
   max (next - now) waitTime
 
+/-- One successful regular run of the server loop (`operation.rs`, `Server::run`): it takes
+`dur` from its start to `mark_update_done`, the data set it produced expires at `expiry`,
+and `refresh_wait` is evaluated `lag` later (the clock does not step backwards). -/
+structure SchedRun where
+  dur : Nat
+  lag : Nat
+  expiry : Option Nat
+  deriving Repr
+
+/-- The waits the server loop obtains from `refresh_wait` over a sequence of successful
+regular runs, the first starting at `t`; each next run starts when its wait has elapsed
+(`deadline = Instant::now() + timeout`). -/
+def schedWaits (refresh : Nat) (minRefresh : Option Nat) : Nat → List SchedRun → List Nat
+  | _, [] => []
+  | t, x :: xs =>
+    let fin := t + x.dur
+    let now1 := fin + x.lag
+    let w := refreshWait (nextUpdateStart fin refresh x.expiry) now1 refresh minRefresh
+    w :: schedWaits refresh minRefresh (now1 + w) xs
+
+/-- Start times of the runs of the same sequence (the first is `t`). -/
+def schedStarts (refresh : Nat) (minRefresh : Option Nat) : Nat → List SchedRun → List Nat
+  | t, [] => [t]
+  | t, x :: xs =>
+    let fin := t + x.dur
+    let now1 := fin + x.lag
+    let w := refreshWait (nextUpdateStart fin refresh x.expiry) now1 refresh minRefresh
+    t :: schedStarts refresh minRefresh (now1 + w) xs
+
 end RoutinatorModel
